@@ -10,6 +10,7 @@
   position `pos`"); a new instance satisfies it at position 0 (`new_at_zero`).
 -/
 import CC.ChaCha.Refine7
+import CC.ChaCha.Src
 namespace CC.Thm.C02
 open CC CC.Simd CC.ChaCha CC.ChaCha.Spec
 
@@ -160,5 +161,122 @@ example :
     rcases ho with rfl | rfl | rfl | rfl | rfl | rfl <;>
       first | trivial | (show (List.replicate 300 (0 : BitVec 8)).length < 2 ^ 64
                          rw [List.length_replicate]; omega))
+
+/-- **Source tie, phase 3 (the glue of `rustcrypto_impl.rs`).**  `tools/inventory_kernels_glue.py` regenerates, on
+    every run, Lean definitions from the Rust of `seek64`, `seek32`, the two `ChaChaAny::new`, `try_seek`,
+    `try_current_pos`, `ChaChaAny::try_apply_keystream` (12-byte nonce: save / call / restore of nonce word 13;
+    otherwise the plain call) and `Buffer::try_apply_keystream` as a whole (lazy fill with `wrapping_sub`, the
+    overflow check and the early `Err`, `self.fresh &= blocks_needed == 0`, the drain of the buffered bytes, the loops
+    over `chunks_exact_mut(BUFSZ)` and `chunks_mut(BLOCK)` as `forChunksExactMut` / `forChunksMut` of the generated
+    bodies, `have = BLOCK - dd.len()`, `self.have = have as i8`), with checked arithmetic as guards in profile debug.
+    The model of this property (`Buffer.seek64`, `Buffer.seek32`, `Cipher.new`, `Cipher.trySeek`,
+    `Cipher.tryCurrentPos`, `Cipher.tryApply`, `Buffer.tryApply` with `wideLoop` / `tailLoop`) equals them on the
+    encoding `CC.Src.bufEnc` of the struct fields (`i8` / `u64` as bit vectors), for every buffer within the range of
+    the Rust types (resp. the struct invariant `-64 < have ≤ 64`, `out.len() = 64`), every request below `isize::MAX`
+    bytes, both profiles; `SeekNum::try_into` / `from_block_byte` are named primitives (`CC.Src.tryIntoU64`,
+    `CC.Src.fromBlockByteP`).  Panic messages are not compared.  Individual facts: `CC.Src.src_chacha_buffer_*`,
+    `CC.Src.src_chacha_any_*` (lean/CC/ChaCha/Src.lean). -/
+theorem source_glue_match :
+    CC.Gen.Kernels.chacha_errors = [] ∧ CC.Src.BlockLens Mach.ref ∧
+    (∀ (M : Mach) (p : Profile) (b : Buffer) (ct : BitVec 64),
+      CC.Gen.Kernels.chacha_buffer_seek64 M p b.state.b b.state.c b.state.d b.out (BitVec.ofInt 8 b.hav)
+          (BitVec.ofNat 64 b.len) b.fresh ct = .ok (CC.Src.bufEnc (Buffer.seek64 M b ct.toNat))) ∧
+    (∀ (M : Mach) (p : Profile) (b : Buffer) (ct : BitVec 64),
+      CC.Src.noMsg (CC.Gen.Kernels.chacha_buffer_seek32 M p b.state.b b.state.c b.state.d b.out (BitVec.ofInt 8 b.hav)
+          (BitVec.ofNat 64 b.len) b.fresh ct)
+        = CC.Src.noMsg (Buffer.seek32 M b ct.toNat >>= fun b' => .ok (CC.Src.bufEnc b'))) ∧
+    (∀ (M : Mach) (dr : Nat) (key nonce : List (BitVec 8)), nonce.length = 8 →
+      CC.Src.bufEnc (Cipher.new M ⟨.djb, dr⟩ key nonce).buf = CC.Gen.Kernels.chacha_any_new_8 M key nonce) ∧
+    (∀ (M : Mach) (dr : Nat) (key nonce : List (BitVec 8)), nonce.length = 12 →
+      CC.Src.bufEnc (Cipher.new M ⟨.ietf, dr⟩ key nonce).buf = CC.Gen.Kernels.chacha_any_new_12 M key nonce) ∧
+    (∀ (M : Mach) (dr : BitVec 32) (key nonce : List (BitVec 8)),
+      CC.Src.bufEnc (Cipher.new M ⟨.x, dr.toNat⟩ key nonce).buf = CC.Gen.Kernels.chacha_any_new_x M key nonce dr) ∧
+    (∀ (M : Mach) (p : Profile) (c : Cipher) (pos : Int), c.v.layout = .ietf →
+      CC.Src.noMsg (CC.Gen.Kernels.chacha_any_try_seek_12 M p c.buf.state.b c.buf.state.c c.buf.state.d c.buf.out
+          (BitVec.ofInt 8 c.buf.hav) (BitVec.ofNat 64 c.buf.len) c.buf.fresh (CC.Src.tryIntoU64 pos))
+        = CC.Src.noMsg (Cipher.trySeek M c pos >>= fun r => .ok (r.2, CC.Src.bufEnc r.1.buf))) ∧
+    (∀ (M : Mach) (p : Profile) (c : Cipher) (pos : Int), c.v.layout ≠ .ietf →
+      CC.Gen.Kernels.chacha_any_try_seek_8 M p c.buf.state.b c.buf.state.c c.buf.state.d c.buf.out
+          (BitVec.ofInt 8 c.buf.hav) (BitVec.ofNat 64 c.buf.len) c.buf.fresh (CC.Src.tryIntoU64 pos)
+        = (Cipher.trySeek M c pos >>= fun r => .ok (r.2, CC.Src.bufEnc r.1.buf)) ∧
+      CC.Gen.Kernels.chacha_any_try_seek_24 M p c.buf.state.b c.buf.state.c c.buf.state.d c.buf.out
+          (BitVec.ofInt 8 c.buf.hav) (BitVec.ofNat 64 c.buf.len) c.buf.fresh (CC.Src.tryIntoU64 pos)
+        = (Cipher.trySeek M c pos >>= fun r => .ok (r.2, CC.Src.bufEnc r.1.buf))) ∧
+    (∀ (p : Profile) (c : Cipher) (t : SeekTy), -128 < c.buf.hav → c.buf.hav ≤ 64 → c.buf.len < 2 ^ 64 →
+      (c.v.layout = .ietf →
+        CC.Src.noMsg (CC.Gen.Kernels.chacha_any_try_current_pos_12 (CC.Src.fromBlockByteP t) p c.buf.state.b c.buf.state.c
+            c.buf.state.d c.buf.out (BitVec.ofInt 8 c.buf.hav) (BitVec.ofNat 64 c.buf.len) c.buf.fresh)
+          = CC.Src.noMsg (Cipher.tryCurrentPos p c t)) ∧
+      (c.v.layout ≠ .ietf →
+        CC.Src.noMsg (CC.Gen.Kernels.chacha_any_try_current_pos_8 (CC.Src.fromBlockByteP t) p c.buf.state.b c.buf.state.c
+            c.buf.state.d c.buf.out (BitVec.ofInt 8 c.buf.hav) (BitVec.ofNat 64 c.buf.len) c.buf.fresh)
+          = CC.Src.noMsg (Cipher.tryCurrentPos p c t) ∧
+        CC.Src.noMsg (CC.Gen.Kernels.chacha_any_try_current_pos_24 (CC.Src.fromBlockByteP t) p c.buf.state.b c.buf.state.c
+            c.buf.state.d c.buf.out (BitVec.ofInt 8 c.buf.hav) (BitVec.ofNat 64 c.buf.len) c.buf.fresh)
+          = CC.Src.noMsg (Cipher.tryCurrentPos p c t))) ∧
+    (∀ (M : Mach), CC.Src.BlockLens M → ∀ (p : Profile) (dr : BitVec 32) (b : Buffer) (data : List (BitVec 8)),
+      -64 < b.hav → b.hav ≤ 64 → b.len < 2 ^ 64 → b.out.length = 64 → data.length < 2 ^ 63 →
+      CC.Gen.Kernels.chacha_buffer_try_apply_keystream M p b.state.b b.state.c b.state.d b.out (BitVec.ofInt 8 b.hav)
+          (BitVec.ofNat 64 b.len) b.fresh data dr
+        = (Buffer.tryApply M p dr.toNat b data >>= fun r => .ok (CC.Src.applyEnc data r))) ∧
+    (∀ (M : Mach), CC.Src.BlockLens M → ∀ (p : Profile) (c : Cipher) (dr : BitVec 32) (data : List (BitVec 8)),
+      c.v.drounds = dr.toNat → -64 < c.buf.hav → c.buf.hav ≤ 64 → c.buf.len < 2 ^ 64 → c.buf.out.length = 64 →
+      data.length < 2 ^ 63 →
+      (c.v.layout = .ietf →
+        CC.Gen.Kernels.chacha_any_try_apply_keystream_12 M p c.buf.state.b c.buf.state.c c.buf.state.d c.buf.out
+            (BitVec.ofInt 8 c.buf.hav) (BitVec.ofNat 64 c.buf.len) c.buf.fresh data dr
+          = (Cipher.tryApply M p c data >>= fun r => .ok (CC.Src.applyEnc data (r.1.buf, r.2)))) ∧
+      (c.v.layout ≠ .ietf →
+        CC.Gen.Kernels.chacha_any_try_apply_keystream_8 M p c.buf.state.b c.buf.state.c c.buf.state.d c.buf.out
+            (BitVec.ofInt 8 c.buf.hav) (BitVec.ofNat 64 c.buf.len) c.buf.fresh data dr
+          = (Cipher.tryApply M p c data >>= fun r => .ok (CC.Src.applyEnc data (r.1.buf, r.2))) ∧
+        CC.Gen.Kernels.chacha_any_try_apply_keystream_24 M p c.buf.state.b c.buf.state.c c.buf.state.d c.buf.out
+            (BitVec.ofInt 8 c.buf.hav) (BitVec.ofNat 64 c.buf.len) c.buf.fresh data dr
+          = (Cipher.tryApply M p c data >>= fun r => .ok (CC.Src.applyEnc data (r.1.buf, r.2))))) ∧
+    -- the trait impls (`NewCipher::new`, `StreamCipher::try_apply_keystream`) forward to the inherent functions
+    (CC.Gen.Kernels.chacha_newcipher_new_8 = CC.Gen.Kernels.chacha_any_new_8 ∧
+     CC.Gen.Kernels.chacha_newcipher_new_12 = CC.Gen.Kernels.chacha_any_new_12 ∧
+     CC.Gen.Kernels.chacha_newcipher_new_x = CC.Gen.Kernels.chacha_any_new_x) ∧
+    (∀ (M : Mach) (p : Profile) (b c d : BitVec 128) (out : List (BitVec 8)) (hv : BitVec 8) (len : BitVec 64)
+        (fresh : Bool) (data : List (BitVec 8)) (dr : BitVec 32),
+      CC.Src.noMsg (CC.Gen.Kernels.chacha_streamcipher_try_apply_keystream_12 M p b c d out hv len fresh data dr)
+        = CC.Src.noMsg (CC.Gen.Kernels.chacha_any_try_apply_keystream_12 M p b c d out hv len fresh data dr
+            >>= fun r => .ok r) ∧
+      CC.Src.noMsg (CC.Gen.Kernels.chacha_streamcipher_try_apply_keystream_8 M p b c d out hv len fresh data dr)
+        = CC.Src.noMsg (CC.Gen.Kernels.chacha_any_try_apply_keystream_8 M p b c d out hv len fresh data dr
+            >>= fun r => .ok r) ∧
+      CC.Src.noMsg (CC.Gen.Kernels.chacha_streamcipher_try_apply_keystream_24 M p b c d out hv len fresh data dr)
+        = CC.Src.noMsg (CC.Gen.Kernels.chacha_any_try_apply_keystream_24 M p b c d out hv len fresh data dr
+            >>= fun r => .ok r)) ∧
+    -- the struct declarations (`Clone` derived: field-wise copy) and the trait impls with the functions they define
+    CC.Gen.Kernels.chacha_structs =
+      [("Buffer", "struct", ["state", "out", "have", "len", "fresh"], ["Clone"], []),
+       ("ChaChaAny", "struct", ["state", "_nonce_size", "_rounds", "_is_x"], ["Clone"], []),
+       ("X", "struct", [], ["Default"], []), ("O", "struct", [], ["Default"], []),
+       ("ChaCha", "struct", ["b", "c", "d"], ["Clone", "Eq", "PartialEq"], [])] ∧
+    CC.Gen.Kernels.chacha_trait_impls =
+      [("ChaChaAny", "NewCipher", ["new"]), ("ChaChaAny", "NewCipher", ["new"]),
+       ("ChaChaAny", "StreamCipherSeek", ["try_current_pos", "try_seek"]),
+       ("ChaChaAny", "StreamCipher", ["try_apply_keystream"])] :=
+  ⟨CC.Src.src_chacha_clean, CC.Src.blockLens_ref, CC.Src.src_chacha_buffer_seek64, CC.Src.src_chacha_buffer_seek32,
+   fun M dr key nonce h => CC.Src.src_chacha_any_new_8 M dr key nonce h,
+   fun M dr key nonce h => CC.Src.src_chacha_any_new_12 M dr key nonce h,
+   CC.Src.src_chacha_any_new_x,
+   fun M p c pos hl => CC.Src.src_chacha_any_try_seek_12 M p c hl pos,
+   fun M p c pos hl => ⟨CC.Src.src_chacha_any_try_seek_8 M p c hl pos, CC.Src.src_chacha_any_try_seek_24 M p c hl pos⟩,
+   fun p c t h1 h2 h3 => ⟨fun hl => CC.Src.src_chacha_any_try_current_pos_12 p c hl h1 h2 h3 t,
+     fun hl => ⟨CC.Src.src_chacha_any_try_current_pos_8 p c hl h1 h2 h3 t,
+                CC.Src.src_chacha_any_try_current_pos_24 p c hl h1 h2 h3 t⟩⟩,
+   fun M hM p dr b data h1 h2 h3 h4 hd => CC.Src.src_chacha_buffer_try_apply_keystream M hM p dr b h1 h2 h3 h4 data hd,
+   fun M hM p c dr data hdr h1 h2 h3 h4 hd =>
+     ⟨fun hl => CC.Src.src_chacha_any_try_apply_keystream_12 M hM p c hl dr hdr h1 h2 h3 h4 data hd,
+      fun hl => ⟨CC.Src.src_chacha_any_try_apply_keystream_8 M hM p c hl dr hdr h1 h2 h3 h4 data hd,
+                 CC.Src.src_chacha_any_try_apply_keystream_24 M hM p c hl dr hdr h1 h2 h3 h4 data hd⟩⟩,
+   ⟨CC.Src.src_chacha_newcipher_new_8, CC.Src.src_chacha_newcipher_new_12, CC.Src.src_chacha_newcipher_new_x⟩,
+   fun M p b c d out hv len fresh data dr =>
+     ⟨CC.Src.src_chacha_streamcipher_try_apply_keystream_12 M p b c d out hv len fresh data dr,
+      CC.Src.src_chacha_streamcipher_try_apply_keystream_8 M p b c d out hv len fresh data dr,
+      CC.Src.src_chacha_streamcipher_try_apply_keystream_24 M p b c d out hv len fresh data dr⟩,
+   CC.Src.src_chacha_structs, CC.Src.src_chacha_trait_impls⟩
 
 end CC.Thm.C02
